@@ -36,7 +36,7 @@ def XVal.toLat : XVal → Option Pcore.Lat.Val
   | .sensitive v => (XVal.toLat v).map .sensitive
   | .array vs => (XVal.toLatL vs).map .array
   | .hash es => (XEntry.toLatL es).map .hash
-  | .float _ | .semver _ | .semverRange _ _ | .uri _ | .tstamp _ | .typ _ _ | .obj _ _ | .talias _ _ | .otype _ _ => none
+  | .float _ | .semver _ | .semverRange _ _ | .uri _ | .tstamp _ | .typ _ _ | .obj _ _ | .talias _ _ | .otype _ _ | .otypeX _ _ => none
 def XVal.toLatL : List XVal → Option (List Pcore.Lat.Val)
   | [] => some []
   | v :: vs =>
